@@ -34,11 +34,36 @@ P = {
  'C18': ('proof', 'Rocq proof: radius invariant preserved at every write site (reals/OrdLaws) + tables', 'Radius-site lemmas and write-site exhaustiveness; diagnostic table structure.', 'Exact-real radius arithmetic; hypotheses alpha ranges as tabled.'),
  'C19': ('other', 'Rocq table obligations: RNG call sites guarded, prologue copies (partial)', 'Every np.random call site lies under a guard that is false by default; caller arrays are copied before modification. Bit-identical reruns are validated only.', 'Partial: whole-run bit reproducibility is not a theorem.'),
 }
-PENDING = {
- 'C05': 'check under construction: mechanism theorems (interpolation exactness) not yet built; convergence clause is not provable',
- 'C06': 'check under construction', 'C07': 'check under construction', 'C11': 'check under construction', 'C12': 'check under construction',
- 'C13': 'check under construction', 'C14': 'check under construction', 'C16': 'check under construction', 'C20': 'check under construction',
-}
+P.update({
+ 'C05': ('other', 'Rocq proof of the mechanism (exact reals): affine residuals are interpolated exactly, Gauss-Newton model equals the true objective change; convergence validated against lsq_linear',
+         'PARTIAL. Theorems: an affine residual is reproduced exactly by the model (A xk - b, A) based at any point, for any point set; for it the quadratic model equals the true change of the objective (ratio 1); models survive base shifts. The end-to-end clause (within 1e-6(1+f*) of the constrained optimum with the default budget, success flag) is a convergence-rate statement about a floating-point heuristic and is only validated by the sweep against scipy lsq_linear.',
+         'Exact-real algebra; the LAPACK solve is an oracle; convergence is not a theorem.'),
+ 'C06': ('other', 'Rocq table obligations (callback argument pass-through, true box, zero step) + sweep against a certified proximal reference',
+         'PARTIAL. Table theorems: every h call carries *argsh, every prox_uh call (point, u, *argsprox); the regularised subproblem gets the true box in absolute coordinates; a step with negative predicted reduction is replaced by zero. Convergence to within 1e-3(1+F*) is validated only.',
+         'Known findings: regulariser + scaling_within_bounds (F22, named in the property); correct minimiser flagged slow-progress (F55).'),
+ 'C07': ('proof', 'Rocq proof of the validation decision procedure (MValid) over the regenerated parameter table + exit/constructor tables + vm_compute correspondence of check_param',
+         'Theorems: the parameter table regenerated from params.py is well formed for every npt; validation of any (key, value) is total (accept / reject / unknown key) and acceptance means tabled type and range; tables: every input-error exit has a message and leads to one graceful return built with the full constructor arity before any evaluation; unknown keys raise ValueError; every documented EXIT_ constant is exposed. Correspondence: model decision == ParameterList.check_param on every key x 24 value kinds.',
+         'Python dynamic typing of non-parameter arguments and str(soln) are validated only. Open known findings F39-F53 (boundary values accepted by the table that crash later, shape checks after use, bool-as-int, None ignored).'),
+ 'C11': ('other', 'Rocq proof: Jacobian/evaluation-number snapshot coherence (regenerated Model) + column un-scaling algebra (reals); accuracy validated against an independent lstsq fit',
+         'PARTIAL. Theorems: saved and returned (Jacobian, evaluation numbers) pairs are one snapshot; dividing column i by scale_i is the same linear map in user coordinates; for affine residuals the fit is A (C05). Table: numbers are copied at the fit. "Up to rounding amplified by conditioning" is validated only.',
+         'init.run_in_parallel labels: known finding F13.'),
+ 'C12': ('proof', 'Rocq proof (OrdLaws) that the point built by the regenerated d_within_bounds is exactly in the box + exact-real identity step = xnew - xopt + return-site table; decrease clauses validated',
+         'Box clause: theorem for every d, xbdi, all binary64 values (the new point xnew), and in exact reals xopt + d = xnew; table: every return of trsbox/alt_trust_step goes through d_within_bounds. Radius, model decrease, Cauchy decrease and gnew = g + Hd are validated by the sweep (tolerances as in the statement).',
+         'In binary64 the rounding of xnew - xopt can put xopt + d one ulp outside (known finding F30; witness proved by vm_compute). TRSBOX loop-level decrease is not a theorem.'),
+ 'C13': ('other', 'Rocq proof: ball projector lands in the ball (reals) + last-projector theorem of C15 + tables (ball appended last, zero step); optimality validated by a bisection oracle',
+         'PARTIAL. Theorems: |pball(x,c,r) - c| <= r; the step the convex solvers obtain from their projection is an output of the trust-region ball projector, hence |d| <= Delta in exact reals; tables: ball appended last in ctrsbox_pgd/sfista/linear, zero step on negative predicted reduction. Global optimality of the geometry step and the box clause of trsbox_linear are validated only.',
+         'Known finding F31 (pgd with zero Hessian returns NaN).'),
+ 'C14': ('other', 'Rocq proof (OrdLaws) that both direction generators end with an exact clip into [lower, upper]; geometry of the coordinate initialisation validated',
+         'PARTIAL. Theorem: the last statement of both generators clips every returned direction into the bounds exactly (all binary64 values); count of returned directions (table); evaluated initial points are inside the bounds by C01. Distances, affine independence and conditioning < 1e4 are validated only.',
+         'Known finding F19 (orthogonal generator returns 2*delta directions).'),
+ 'C16': ('other', 'Rocq proof (exact reals) on the regenerated shift_base: model values at fixed absolute points, J and xbase+p are invariant; Gauss-Newton identity; cache-flag theorems; fit identities validated',
+         "PARTIAL. Theorems: base shifts change neither model values at fixed absolute points nor J; g.s + s'Hs/2 = |r+Js|^2 - |r|^2 for the assembly in build_full_model (source-text tie); change_point/shift_base/add_new_point clear the cached factorisation. Data reproduction, least-squares orthogonality and Lagrange identities depend on LAPACK and are validated with conditioning-scaled tolerances.",
+         'LAPACK QR/lstsq/SVD are oracles.'),
+ 'C20': ('proof', 'Rocq proof by induction on JSON values (MJson): from_dict(to_dict r) = r and strict JSON, + field tables regenerated from to_dict/from_dict/__init__/replace_nan_with_none',
+         'Theorems: for every result record (any sizes, any NaN pattern, missing Jacobian) from_dict(to_dict r) = r and to_dict r contains no NaN; tables: the source uses exactly the modelled converter pairs, the twelve keys, the constructor order and the four branches of replace_nan_with_none.',
+         'pandas/json/NumPy conversions and str() are exercised by the sweep, not modelled. Known finding F54: +-inf entries are not replaced (not strict JSON).'),
+})
+PENDING = {}
 import sys
 ready = [p for p in sorted(P) if os.path.exists('%s/harness/props/%s.py' % (V, p)) and p not in sys.argv[1:]]
 checks = []
